@@ -458,8 +458,105 @@ class CliStream(C08Stream):
         return C08Stream.oracle(self, case, impl_out)
 
 
+# --------------------------------------------------------------------------
+# stream 5: the theorems' witnesses against the real output
+
+
+def splice_at(pre, post, out):
+    """Spec.SpliceAt: out = (pre without the white space at its ends, one empty line | nothing) header "\n" (post | "\n" post | nothing)"""
+    if pre.strip() == "":
+        heads = [""]
+    else:
+        heads = [pre.rstrip() + "\n\n", pre.strip() + "\n\n"]
+    if post.strip() == "":
+        tails = [""]
+    else:
+        tails = [post, "\n" + post]
+    for a in heads:
+        for b in tails:
+            if out.startswith(a) and out.endswith(b) and len(a) + len(b) + 1 <= len(out):
+                mid = out[len(a):len(out) - len(b)]
+                if mid.endswith("\n") and mid.strip() != "":
+                    return True
+    return False
+
+
+class TheoremStream(C08Stream):
+    """Ties C08_splice_replace / C08_splice_add to the code: the driver evaluates the hypotheses (NoExoticBreaks, not the .license
+    pseudo style) and computes the theorem's witnesses `pre` and `post` from the model's sections; where the hypotheses hold the
+    output of the real find_and_replace_header / add_new_header must satisfy Spec.SpliceAt for exactly these witnesses."""
+    name = "theorem"
+    rule = ("find_and_replace_header / add_new_header on the LF form of grammar bodies (incl. form feed / vertical tab / NEL / U+2028 inside "
+            "lines, which falsify the hypothesis) x every style x both modes; the driver returns (NoExoticBreaks, pre, post) from the model's "
+            "sections; where the hypothesis holds the real output must be SpliceAt(pre, post); non-trivial = hypothesis holds")
+
+    def cases(self, tier, rng):
+        k = 60 if tier == "thorough" else 10
+        out = []
+        for st in all_styles():
+            if st.__name__ in ("UncommentableCommentStyle", "EmptyCommentStyle"):
+                continue
+            for i in range(k):
+                t = own_header_body(rng, st) if i % 2 else rand_body(rng, st)
+                t = norm_breaks(t).replace("\r", "\n").lstrip(BOM)
+                if rng.random() < 0.12:
+                    pos = rng.randint(0, len(t))
+                    t = t[:pos] + rng.choice("\x0b\x0c\x1c\x85\u2028") + t[pos:]
+                cpr, lic, con = rand_info(rng)
+                force = "1" if (st.can_handle_multi() and rng.random() < 0.3) else "0"
+                out.append({"s": st.__name__, "f": "0" + force + "0" + rng.choice("10") + "0", "cpr": cpr, "lic": lic, "con": con, "t": t})
+        return attach_bad(out)
+
+    def impl(self, case):
+        from reuse.header import find_and_replace_header, add_new_header
+        from reuse.exceptions import CommentCreateError, MissingReuseInfoError
+        st = style_by_name(case["s"])
+        fn = find_and_replace_header if case["f"][3] == "1" else add_new_header
+        try:
+            return "W:" + enc(fn(case["t"], info_of(case), style=st, force_multi=case["f"][1] == "1"))
+        except CommentCreateError:
+            return "F:commentCreate"
+        except MissingReuseInfoError:
+            return "F:missingInfo"
+
+    def model_lines(self, case):
+        return ["c08parts\t%s\t%s\t%s\t%s" % (case["s"], case["f"], enc_list(case.get("bad", [])), enc(case["t"]))]
+
+    def agree(self, case, impl_out, model_out):
+        hyp, pre, post, eof = model_out.split("|")
+        if hyp != "1" or not impl_out.startswith("W:"):
+            return True
+        self._hyp = getattr(self, "_hyp", set())
+        self._hyp.add((case["s"], case["f"], case["t"]))
+        pre, post = dec(pre), dec(post)
+        t = case["t"]
+        # the witnesses are a prefix and a suffix of the text (of the text plus "\n" when the block ends a text without final newline)
+        if not (t.startswith(pre) and (t.endswith(post) or (eof == "1" and post == "")) and len(pre) + len(post) <= len(t) + (1 if eof == "1" else 0)):
+            return False
+        return splice_at(pre, post, dec(impl_out[2:]))
+
+    def oracle(self, case, impl_out):
+        if EXOTIC.search(case["t"]):
+            return None          # boundary: lines are not what the oracle's line notion says
+        return C08Stream.oracle(self, case, impl_out)
+
+    def nontrivial(self, case, impl_out):
+        k = (case["s"], case["f"], case["t"])
+        return k if k in getattr(self, "_hyp", ()) else None
+
+
 PROPERTY = Property(
     pid="C08",
-    streams=[BodiesStream(), ExhaustiveStream(), AnnotateStream(), CliStream()],
-    assumptions=[],
+    streams=[BodiesStream(), ExhaustiveStream(), TheoremStream(), AnnotateStream(), CliStream()],
+    assumptions=[
+        "line-level statements are about texts whose only line boundary after normalisation is \\n (Spec.NoExoticBreaks); with \\v \\f "
+        "\\x1c-\\x1e \\x85 U+2028 U+2029 inside a line the model (full str.splitlines) and the code are compared, the oracle is not applied",
+        "a file mixing CRLF / CR / LF has no single line-ending convention to keep: detect_line_endings prefers CRLF over CR over LF and every "
+        "break is rewritten to that; the oracle then compares line contents only (documented boundary, model and code compared)",
+        "a comment block that ends a file without final newline is replaced together with the end of the file: the file then ends with the new "
+        "block's own line end (header-only file gains a final newline: documented reading)",
+        "'shebang or XML-declaration-like first line' is judged for the first-line markers the file's comment style declares (SHEBANGS, "
+        "regenerated from the source on every run)",
+        "open(newline=...) translation and UTF-8 decoding (a byte order mark arrives as U+FEFF) are CPython's, modelled as Spec.toCRLF / toCR",
+    ],
 )
